@@ -64,11 +64,19 @@ class Camera:
         """
         Safely get a copy of the current camera.
         """
+        # pass only the quantity which was set: the other one is
+        # derived from it and has to follow the resolution in the copy
+        if self._focal_computed:
+            focal, fov = None, self.fov
+        else:
+            focal, fov = self.focal, None
         return Camera(
             name=copy.deepcopy(self.name),
             resolution=copy.deepcopy(self.resolution),
-            focal=copy.deepcopy(self.focal),
-            fov=copy.deepcopy(self.fov),
+            focal=copy.deepcopy(focal),
+            fov=copy.deepcopy(fov),
+            z_near=self.z_near,
+            z_far=self.z_far,
         )
 
     @property
